@@ -383,5 +383,73 @@ inline std::string step(State& st, Rng& r, Sink& s)
     return genStatus(st, r, s);
 }
 
+// G5: reassembly of long messages (20 000 .. 60 000 bytes in 2..4 segments): large buffers change hands inside the decoder
+inline const char* genBigReassembly(State& st, Rng& r, Sink& s)
+{
+    using namespace ASAM::CMP;
+    size_t total = r.range(16384, 60000);
+    size_t nseg = r.range(2, 4);
+    uint16_t seq = static_cast<uint16_t>(r.next());
+    uint16_t dev = static_cast<uint16_t>(r.range(1, 3));
+    wire::Bytes data = r.bytes(total);
+    size_t off = 0;
+    for (size_t i = 0; i < nseg; ++i)
+    {
+        size_t n = (i + 1 == nseg) ? total - off : total / nseg;
+        GMsg m;
+        m.ts = 77;
+        m.idWord = 5;
+        m.ptype = 0x52;
+        m.flags = (i == 0 ? wire::SEG_FIRST : (i + 1 == nseg ? wire::SEG_LAST : wire::SEG_MID));
+        m.payload.assign(data.begin() + static_cast<long>(off), data.begin() + static_cast<long>(off + n));
+        off += n;
+        wire::Bytes f = buildFrame(1, dev, wire::MT_DATA, 1, seq++, {m});
+        std::vector<std::shared_ptr<Packet>> got;
+        {
+            InLib g;
+            got = st.dec.decode(f.data(), f.size());
+        }
+        for (auto& p : got)
+            if (p)
+                sinkPacket(s, *p);
+    }
+    return "big-reassembly";
+}
+
+// one workload step; focus < 0: the usual mix, otherwise only generator class `focus` (contention on one code path)
+inline std::string step(State& st, Rng& r, Sink& s, int focus)
+{
+    if (focus < 0)
+    {
+        if (r.chance(1, 25))
+            return genBigReassembly(st, r, s);
+        return step(st, r, s);
+    }
+    switch (focus % 6)
+    {
+        case 0:
+        {
+            bool padded;
+            int mc;
+            genEncodeDecode(st, r, s, padded, mc);
+            return "encode+decode";
+        }
+        case 1:
+        {
+            int sub;
+            return genDecode(st, r, s, sub);
+        }
+        case 2:
+        {
+            int cls;
+            genBuilders(r, s, cls);
+            return "builders";
+        }
+        case 3: return genTecmp(st, r, s);
+        case 4: return genStatus(st, r, s);
+        default: return genBigReassembly(st, r, s);
+    }
+}
+
 }  // namespace wl
 }  // namespace vf
